@@ -117,6 +117,13 @@ impl Harness {
                 }
                 out
             }
+            "O" => {
+                let out = self.tree.exec_o(&ws[1..]);
+                for f in self.tree.take_failures() {
+                    self.failures.push(format!("case={} line={} op=`{}` {}", self.case, self.lineno, line, f));
+                }
+                out
+            }
             "F" => {
                 let out = self.tree.exec_f(&ws[1..]);
                 for f in self.tree.take_failures() {
@@ -192,7 +199,7 @@ fn main() {
                             let l = if c % 5 == 0 { len * 3 } else { len };
                             arena::gen_case(&mut rng, l, &mut exec);
                         }
-                        "tree-ops" | "tree-iter" | "tree-range" | "tree-api" | "tree-damage" | "tree-helpers" | "tree-faults" | "tree-exh" => {
+                        "tree-ops" | "tree-iter" | "tree-range" | "tree-api" | "tree-damage" | "tree-helpers" | "tree-faults" | "tree-exh" | "tree-deep" => {
                             exec(format!("case {}", c));
                             let l = if c % 9 == 0 { len * 4 } else { len };
                             match suite.as_str() {
@@ -203,6 +210,7 @@ fn main() {
                                 "tree-helpers" => treegen::gen_helpers(&mut rng, l, &mut exec, c),
                                 "tree-faults" => treegen::gen_faults(&mut rng, l, &mut exec, c),
                                 "tree-exh" => treegen::gen_exh(&mut rng, len, &mut exec, c),
+                                "tree-deep" => treegen::gen_deep(&mut rng, len, &mut exec, c),
                                 _ => treegen::gen_api(&mut rng, l, &mut exec, c),
                             }
                         }
